@@ -506,7 +506,18 @@ def h_canon(st):
     m = tuple(sorted((repr(k), str(v.dtype)) for k, v in fttools.mdft.Ein.items()))
     mo = tuple(sorted((repr(k), str(v.dtype)) for k, v in fttools.mdft.Eout.items()))
     c = tuple(sorted((repr(k), tuple(str(a.dtype) for a in v)) for k, v in fttools.czt.components.items()))
-    return (prec, m, mo, c)
+    # any further attribute an implementation keeps on the executors (work buffers, derived-basis indices, frozen constants) can be read
+    # by a later call: its keys / dtypes / scalar value are part of the state (the pinned tree has none)
+    extra = []
+    for name, ex, known in (('mdft', fttools.mdft, ('Ein', 'Eout')), ('czt', fttools.czt, ('components',))):
+        for k, v in sorted(vars(ex).items()):
+            if k in known:
+                continue
+            if isinstance(v, dict):
+                extra.append((name, k, tuple(sorted((repr(kk), str(getattr(vv, 'dtype', type(vv).__name__))) for kk, vv in v.items()))))
+            else:
+                extra.append((name, k, str(getattr(v, 'dtype', '')) + repr(v)[:80]))
+    return (prec, m, mo, c, tuple(extra))
 
 
 # ---------------------------------------------------------------------------------------------
